@@ -260,3 +260,32 @@ PROPS.update({
               "the collide profile (both sides forced onto a handful of message IDs); gateway half only - the client-library half needs the client suite",
               "theorems c06_* (all states); monitor Spec.c06 on implementation traces (collide profile)"),
 })
+
+PROPS.update({
+    "C02": gw("C02",
+              "Lean theorems c02_resolves (the (type, ID) the gateway picks for a broker topic denotes exactly that name: short decoding, the session registry, or the "
+              "predefined configuration as this client reads it, via C05), c02_direct, c02_register_first + c02_after_regack (REGISTER first, the parked PUBLISH released "
+              "by the accepted REGACK under the new ID), c02_regack_refused, c02_dropped for ALL states; the whole-session statement (the client's own knowledge from the "
+              "REGISTERs/REGACKs/SUBACKs it has seen; every relayable message answered by the PUBLISH or a REGISTER) is checked by the monitor Spec.c02; tie: gateway suite",
+              "theorems c02_* (one-step, all states) on top of C05/C21; monitor Spec.c02 on implementation traces"),
+    "C16": gw("C16",
+              "GATEWAY HALF: Lean theorems c16_setDup (a retransmission differs in the DUP flag only), c16_retry_resends, c16_retry_gives_up (RetryCount budget; timing "
+              "is C19), c16_puback / c16_pubrec / c16_pubrel / c16_pubcomp (+ duplicates ignored) for ALL states; monitor Spec.c16 (timer-driven copies carry DUP, repeat a "
+              "datagram already sent, stay within the budget) on implementation traces. The client-library half (handler exactly once, end-to-end completion under loss) "
+              "needs the client / system suites and is not claimed yet",
+              "theorems c16_* (gateway model); monitor Spec.c16",
+              assumptions=["partial: gateway side only"]),
+    "C32": gw("C32",
+              "Lean theorems c32_to_broker, c32_short_roundtrip, c32_to_client for ALL configurations, client IDs, IDs and names: predefined and short IDs read the same "
+              "on both sides (both sides use GetTopicName(clientID, id) / the short-topic codec; the gateway never uses a shadowed '*' entry, via C05 and C21); monitors "
+              "Spec.c01 / Spec.c02 projected to predefined and short IDs on implementation traces; ties: gateway suite + topics suite (real PredefinedTopics). The client "
+              "library's own reading function (topicForPublish) is tied by the client suite (when built)",
+              "theorems c32_* on top of c05_id_sound, c21_short_*, c01_name, c02_resolves; monitors projected to tit 1/2",
+              suites=["gateway", "topics"],
+              extra_relevant=lambda line: line.startswith("DIFF topics")),
+})
+# C05 also has a gateway side: the ID the gateway derives from a broker topic name must read back as that name for the client
+PROPS["C05"]["suites"] = ["topics", "gateway"]
+_c05rel = PROPS["C05"]["relevant"]
+PROPS["C05"]["relevant"] = lambda line: _c05rel(line) or line.startswith("DIFF gateway-C05 ")
+PROPS["C05"]["level_text"] += "; gateway side: monitor (Spec.c02 projected to predefined IDs) on gateway-suite traces with shadowing configurations"
